@@ -18,7 +18,7 @@ EXPLANATION = (
     "as such (R1's order is its necessary condition); re-initialisation of all global state on restart.")
 ASSUMPTIONS = ["util::yield_while(f) returns only when f() returned false", "PIKA_THROW_EXCEPTION does not return"]
 THOROUGH_CONFIGS = [["-UNDEBUG", "-DPIKA_DEBUG"]]
-FLOORS = {"C05.R1": 6, "C05.R2": 2, "C05.R3": 5, "C05.R4": 4, "C05.R5": 5, "C05.R6": 8, "C05.R7": 8, "C05.R8": 1}
+FLOORS = {"C05.R1": 6, "C05.R2": 2, "C05.R3": 5, "C05.R4": 4, "C05.R5": 5, "C05.R6": 8, "C05.R7": 8, "C05.R8": 1, "C05.R9": 20}
 
 
 def calls(fn, short=None, qual=None):
@@ -293,3 +293,10 @@ def run(rep, tier):
         rep.ok("C05.R8", fn, "a second start while a runtime exists is refused before anything is constructed")
     else:
         rep.bad("C05.R8", fn, fn.loc, "double-start", "run_or_start does not reject a start while a runtime already exists")
+
+    # ---- R9: resume() really wakes every sleeping worker (the same rules decide C19)
+    from .common import import_rules
+    import_rules(rep, tier, "C19", ("C19.R2", "C19.R5"), "C05.R9",
+                 "K5/K2 (shared with C19.R2/R5): PU suspend/resume hand-shake - resume keeps notifying until the worker left 'sleeping'; "
+                 "suspend_internal drains first, resume_internal resumes every PU - otherwise pika::resume() hangs or queued work never runs")
+
